@@ -3,11 +3,13 @@
    mapper kind; the three implementations (OffsetPageTable, MappedPageTable, RecursivePageTable)
    are tied to it -- and to the slot-by-slot memory models Paging/Mapped.v, Paging/Recursive.v --
    by the correspondence check on whole call histories (engines "tree" and "map").
-   Partial: for map_to of MappedPageTable/OffsetPageTable the refinement memory model -> tree
-   is proved (C01_map_to_memory_model_refines_tree, by induction over the path with a
-   separation invariant); for the other operations and for RecursivePageTable it is checked by
-   that correspondence, not proved. *)
-From X86 Require Import Paging.Mapped Paging.Tree Paging.TreeProofs Paging.Refine.
+   For MappedPageTable/OffsetPageTable the refinement memory model -> tree is PROVED for
+   map_to, unmap, update_flags and translate_page (Paging/Refine*.v: a representation relation
+   with a separation invariant over table and allocator frames), and with it the main statement
+   at the level of raw table memory (C01_raw_memory_walk_is_history_dictated).
+   Partial: for set_flags_p*_entry and clean_up, and for RecursivePageTable (whose accesses go
+   through recursive addresses), the refinement is checked by the correspondence, not proved. *)
+From X86 Require Import Paging.Mapped Paging.Tree Paging.TreeProofs Paging.Refine Paging.RefineOps Paging.RefineWalk Paging.RefineHistory Paging.Run.
 Open Scope Z_scope.
 
 (* after ANY history from the empty level-4 table, every index path reaches exactly the leaf the
@@ -134,3 +136,70 @@ Theorem C01_empty_table_represents_the_empty_tree : forall rootf allocs r,
   0 <= rootf -> rootf mod 4096 = 0 -> rep 4 (init_pstate rootf allocs r) empty_children rootf.
 Proof. exact rep_init. Qed.
 Print Assumptions C01_empty_table_represents_the_empty_tree.
+
+(* unmap / update_flags / translate_page of the memory model refine the tree operations *)
+Theorem C01_unmap_memory_model_refines_tree : forall s ch k page,
+  0 <= k <= 2 -> rep 4 s ch (root s) -> tframe (root s) -> sep s (root s) ch ->
+  let s' := fst (unmap s k page) in
+  let ch' := fst (t_unmap ch (idx_list k page) k page) in
+  snd (unmap s k page) = snd (t_unmap ch (idx_list k page) k page) /\
+  rep 4 s' ch' (root s') /\ sep s' (root s') ch' /\ MemProofs.same_alloc s s' /\
+  (forall a, 0 <= a -> ~ in_frames (root s :: frames_of ch) a -> rd s' a = rd s a).
+Proof. exact unmap_refines. Qed.
+Print Assumptions C01_unmap_memory_model_refines_tree.
+
+Theorem C01_update_flags_memory_model_refines_tree : forall s ch k page flags,
+  0 <= k <= 2 -> rep 4 s ch (root s) -> tframe (root s) -> sep s (root s) ch ->
+  0 <= flags < W64 -> Z.testbit flags 0 = true ->
+  let s' := fst (update_flags s k page flags) in
+  let ch' := fst (t_update_flags ch (idx_list k page) k page flags) in
+  snd (update_flags s k page flags) = snd (t_update_flags ch (idx_list k page) k page flags) /\
+  rep 4 s' ch' (root s') /\ sep s' (root s') ch' /\ MemProofs.same_alloc s s' /\
+  (forall a, 0 <= a -> ~ in_frames (root s :: frames_of ch) a -> rd s' a = rd s a).
+Proof. exact update_flags_refines. Qed.
+Print Assumptions C01_update_flags_memory_model_refines_tree.
+
+Theorem C01_translate_page_memory_model_refines_tree : forall s ch k page,
+  0 <= k <= 2 -> rep 4 s ch (root s) -> tframe (root s) ->
+  translate_page s k page = t_translate_page ch (idx_list k page) k.
+Proof. exact translate_page_refines. Qed.
+Print Assumptions C01_translate_page_memory_model_refines_tree.
+
+(* under the representation relation the independent hardware-style walk of the raw memory is
+   the tree walk *)
+Theorem C01_hardware_walk_of_memory_is_the_tree_walk : forall s ch va,
+  rep 4 s ch (root s) -> enc_walk (hw_walk s va) = t_hw ch va.
+Proof. exact hw_walk_rep. Qed.
+Print Assumptions C01_hardware_walk_of_memory_is_the_tree_walk.
+
+(* THE statement of C01 at the level of raw table memory, for MappedPageTable/OffsetPageTable
+   and histories of map / unmap / update_flags calls of the three sizes: from an empty level-4
+   table, with an allocator whose frames are 4 KiB aligned, pairwise distinct and different from
+   the root (the FrameAllocator contract, hypothesis `sep`), the hardware walk of the final
+   memory returns for every virtual address exactly the leaf, size and physical address the
+   successful calls dictate, and nothing where they dictate nothing *)
+Theorem C01_raw_memory_walk_is_history_dictated : forall rootf allocs ri ops s' outs,
+  tframe rootf -> sep (init_pstate rootf allocs ri) rootf empty_children ->
+  Forall mop_ok ops ->
+  mem_run (init_pstate rootf allocs ri) ops = Ok (s', outs) ->
+  forall va,
+    match dictated (fun _ => None) (map to_top ops) outs (idx_list 0 va) with
+    | None => hw_walk s' va = None
+    | Some (w, n) =>
+        exists wr us,
+          enc_walk (hw_walk s' va) =
+            [leaf_addr w - leaf_addr w mod size_of_rem n + Z.land va (size_of_rem n - 1);
+             size_of_rem n; w; b2z wr; b2z us]
+    end.
+Proof. exact memory_walk_is_history_dictated. Qed.
+Print Assumptions C01_raw_memory_walk_is_history_dictated.
+
+(* the hypotheses are satisfiable: a concrete allocator and history *)
+Theorem C01_raw_memory_hypotheses_satisfiable :
+  let allocs := [2097152; 3145728; 5242880; -1] in
+  let ops := [MMap 0 4096 8192 3 7; MMap 1 2097152 4194304 1 1; MUnmap 0 4096; MUpdate 1 2097152 3] in
+  tframe 1048576 /\ sep (init_pstate 1048576 allocs 0) 1048576 empty_children /\ Forall mop_ok ops /\
+  exists s' outs, mem_run (init_pstate 1048576 allocs 0) ops = Ok (s', outs) /\
+    outs = [[0; 4096]; [0; 2097152]; [0; 8192; 4096]; [0; 2097152]].
+Proof. exact hypotheses_satisfiable. Qed.
+Print Assumptions C01_raw_memory_hypotheses_satisfiable.
